@@ -328,6 +328,28 @@ def classify_flicker(evs, seeds=FLICKER_SEEDS, stage=1):
                 if t is None and any(e.split('|')[0] in keys for e in ev.got.get(p, [])):
                     ev.extra[p] = tag
 
+F_LASTOP = 'C02-lookahead-sees-stop'
+_LASTOP_AA = 'ACFGHIKLMNPQRSTVWYU'
+
+def lastop_hits(rule, run_flagged, todo, realizable_many):
+    """C02-lookahead-sees-stop (open finding of the linear streams, cvcheck.classify): thrombin's two-residue look-ahead
+    (?=[^DE][^DE]) is matched against the translated string INCLUDING the stop symbol, so ...[AFGILTVM][AFGILTVWA]PR|X* is
+    cleaved although only one residue follows.  The SAME executable test on another backbone: rule thrombin, the sequence
+    ends in [AFGILTVM][AFGILTVWA]PR and becomes realizable when one more residue is appended.
+    realizable_many(candidates) -> list of booleans on the backbone in question (circle / AS backbone)."""
+    import re
+    hit = [False] * len(todo)
+    if rule != 'thrombin' or run_flagged:
+        return hit
+    idx = [k for k, p in enumerate(todo) if re.search(r'[AFGILTVM][AFGILTVWA]PR$', p)]
+    if not idx:
+        return hit
+    cands = [todo[k] + r for k in idx for r in _LASTOP_AA]
+    for n, ok in enumerate(realizable_many(cands)):
+        if ok:
+            hit[idx[n // len(_LASTOP_AA)]] = True
+    return hit
+
 def classify(evs):
     classify_missing_linear_stoploss(evs)
     classify_missing(evs)
@@ -348,6 +370,18 @@ def classify(evs):
                 if h:
                     ev.extra[p] = F_LOOKBEHIND
             todo = [p for p in todo if ev.extra[p] is None]
+            if todo:
+                def _circ_real(cands):
+                    acc = [False] * len(cands)
+                    for tx_id in sorted(set(r['tx'] for r in c['circ_records'])):
+                        for ck in CG2.circ_inputs(c, tx_id, ev.run, CG.proteome(c['world'])):
+                            acc = [a or bool(b) for a, b in zip(acc, O.call('cv_circ_realizable', [ck, cands]))]
+                    return acc
+                from harness.lib import cvcheck as _CK
+                for p, h in zip(todo, lastop_hits(ev.run['rule'], bool(_CK.run_flags(ev.run)), todo, _circ_real)):
+                    if h:
+                        ev.extra[p] = F_LASTOP
+                todo = [p for p in todo if ev.extra[p] is None]
         fine = todo[:25]                 # bound the oracle work of the fine tier
         if not todo or not c.get('as_records'):
             continue
@@ -362,6 +396,18 @@ def classify(evs):
             if h:
                 ev.extra[p] = F_LOOKBEHIND
         todo = [p for p in todo if ev.extra[p] is None]
+        if todo:
+            def _as_real(cands):
+                acc = [False] * len(cands)
+                for tx_id in sorted(set(r['tx'] for r in c['as_records'])):
+                    x = CG.tx_input(c, tx_id, ev.recs.get(tx_id, []), ev.run, prots)
+                    acc = [a or bool(b) for a, b in zip(acc, O.call('cv_as_realizable', [x, CG2.as_inputs(c, tx_id), cands]))]
+                return acc
+            from harness.lib import cvcheck as _CK
+            for p, h in zip(todo, lastop_hits(ev.run['rule'], bool(_CK.run_flags(ev.run)), todo, _as_real)):
+                if h:
+                    ev.extra[p] = F_LASTOP
+            todo = [p for p in todo if ev.extra[p] is None]
         fine = todo[:25]
         reqs = []
         for tx_id in set(r['tx'] for r in c['as_records']):
